@@ -24,6 +24,7 @@ import (
 	"os"
 	"os/exec"
 	"path/filepath"
+	"runtime"
 	"strings"
 	"time"
 
@@ -235,15 +236,74 @@ func c07Enrich(r *lib.Rng, old, nw *lib.Build, rel []string) []string {
 }
 
 type c07Fixed struct {
-	name       string
-	old, nw    map[string][]byte
-	partitions int
-	force      bool
+	name        string
+	old, nw     map[string][]byte
+	partitions  int
+	force       bool
+	concurrency int
+}
+
+// c07Concurrency draws a suffix-sort concurrency setting. The field is a plain int ("Exceeding
+// the number of cores will only slow it down. A 0 value (default) uses sequential suffix
+// sorting ... A negative value means (number of cores - value)"): every int is a legal setting,
+// and whatever the code derives from it (a number of workers, a channel capacity, a semaphore)
+// has its boundaries at 0, at 1, at the partition count and at +-(number of cores of the machine
+// the optimizer runs on), not at fixed numbers. So the draw is made relative to
+// runtime.NumCPU(): on or next to -cores (0 or 1 worker left, or a negative count) in 3 draws of
+// 10, far below -cores, next to / far above +cores, next to the partition count, and the small
+// values -3..4.
+func c07Concurrency(r *lib.Rng, partitions int) int {
+	cores := runtime.NumCPU()
+	switch r.Intn(10) {
+	case 0:
+		return 0
+	case 1:
+		return r.Range(1, 4)
+	case 2:
+		return r.Range(-3, -1)
+	case 3: // as many sorters as partitions, one less, one more
+		if v := partitions + r.Range(-1, 1); v > 0 {
+			return v
+		}
+		return 1
+	case 4: // more workers than cores
+		return []int{cores - 1, cores, cores + 1, 2 * cores, 4*cores + r.Range(0, 50), 1000}[r.Intn(6)]
+	case 5, 6, 7: // "number of cores - value" is 2, 1, 0, -1, -2
+		return -cores + r.Range(-2, 2)
+	case 8:
+		return -cores - r.Range(3, 16)
+	default:
+		return []int{-2 * cores, -4*cores - r.Range(0, 50), -1000}[r.Intn(3)]
+	}
+}
+
+// c07ConcurrencyClass: where a setting lies relative to 0 and to the number of cores
+func c07ConcurrencyClass(v int) string {
+	cores := runtime.NumCPU()
+	switch {
+	case v == 0:
+		return "c0"
+	case v > cores:
+		return "c>cores"
+	case v > 0:
+		return "c+"
+	case v > -cores:
+		return "c-"
+	case v == -cores:
+		return "c=-cores"
+	}
+	return "c<-cores"
 }
 
 func c07Corpus() []c07Fixed {
 	r := lib.NewRng(707)
 	o16 := r.Bytes(16)
+	cores := runtime.NumCPU()
+	e0 := r.Bytes(lib.BS + 4567)
+	e1 := append([]byte(nil), e0...)
+	for i := 1000; i < len(e1); i += 9001 {
+		e1[i] += 3
+	}
 	return []c07Fixed{
 		// #7: old 16 B, new 3 B, partitions 4: integer divide by zero
 		{name: "corpus/old16-new3-partitions4", old: map[string][]byte{"f.bin": o16}, nw: map[string][]byte{"f.bin": {9, 8, 7}}, partitions: 4},
@@ -253,6 +313,15 @@ func c07Corpus() []c07Fixed {
 		{name: "corpus/old-empty-new3", old: map[string][]byte{"f.bin": {}, "g.bin": o16}, nw: map[string][]byte{"f.bin": {1, 2, 3}, "g.bin": o16}, partitions: 0, force: true},
 		// new file empty, old not, every file mapped
 		{name: "corpus/new-empty-forced", old: map[string][]byte{"f.bin": o16}, nw: map[string][]byte{"f.bin": {}}, partitions: 3, force: true},
+		// one edited file of a block and a bit; a negative concurrency setting that leaves no core,
+		// one core, or less than no core ("number of cores - value" = 1, -3, -1, then 0), and a positive
+		// one above the number of cores and of partitions
+		{name: "corpus/edited/concurrency=-cores+1/partitions3", old: map[string][]byte{"f.bin": e0}, nw: map[string][]byte{"f.bin": e1}, partitions: 3, concurrency: -cores + 1},
+		{name: "corpus/edited/concurrency=-cores-3/partitions2", old: map[string][]byte{"f.bin": e0}, nw: map[string][]byte{"f.bin": e1}, partitions: 2, concurrency: -cores - 3},
+		{name: "corpus/edited/concurrency=-cores-1/partitions16", old: map[string][]byte{"f.bin": e0}, nw: map[string][]byte{"f.bin": e1}, partitions: 16, concurrency: -cores - 1},
+		{name: "corpus/edited/concurrency=2*cores+1/partitions4", old: map[string][]byte{"f.bin": e0}, nw: map[string][]byte{"f.bin": e1}, partitions: 4, concurrency: 2*cores + 1},
+		{name: "corpus/edited/concurrency=-cores/partitions0", old: map[string][]byte{"f.bin": e0}, nw: map[string][]byte{"f.bin": e1}, partitions: 0, concurrency: -cores},
+		{name: "corpus/edited/concurrency=-cores/partitions5", old: map[string][]byte{"f.bin": e0}, nw: map[string][]byte{"f.bin": e1}, partitions: 5, concurrency: -cores},
 	}
 }
 
@@ -310,7 +379,7 @@ func (c *Ctx) c07Run(idx int, name string, old, nw *lib.Build, rel []string, o l
 		return fmt.Errorf("c07: decoding the plain patch: %v", err)
 	}
 	in := map[string]interface{}{"pair": name, "relations": rel, "subseed": idx, "diffCompression": comp.String(),
-		"partitions": o.Partitions, "concurrency": o.Concurrency, "forceMapAll": o.ForceMapAll, "sizeLimit": o.SizeLimit, "compression": o.Comp.String()}
+		"partitions": o.Partitions, "concurrency": o.Concurrency, "cores": runtime.NumCPU(), "forceMapAll": o.ForceMapAll, "sizeLimit": o.SizeLimit, "compression": o.Comp.String()}
 	obs := map[string]interface{}{}
 	oracle, finding := "", ""
 	fail := func(f string, a ...interface{}) {
@@ -611,6 +680,7 @@ func (c *Ctx) c07Run(idx int, name string, old, nw *lib.Build, rel []string, o l
 	if len(ms) >= 2 {
 		class += "/multi"
 	}
+	class += "/" + c07ConcurrencyClass(o.Concurrency)
 	for _, m := range ms {
 		if orig.Target.Files[m.Target].Size > c07CacheChunk*c07CacheEntries {
 			class += "/old>read-cache"
@@ -670,7 +740,7 @@ func runC07(c *Ctx) error {
 		for p, d := range cc.nw {
 			nw.Put(lib.Entry{Path: p, Kind: "file", Data: d})
 		}
-		o := lib.OptParams{Partitions: cc.partitions, ForceMapAll: cc.force, Comp: lib.Compressions[0]}
+		o := lib.OptParams{Partitions: cc.partitions, Concurrency: cc.concurrency, ForceMapAll: cc.force, Comp: lib.Compressions[0]}
 		if err := c.c07Run(1000+idx, cc.name, old, nw, []string{cc.name}, o, lib.Compressions[0], c07Apps{inplaceOpt: true, inplaceOrig: true}); err != nil {
 			return err
 		}
@@ -714,7 +784,9 @@ func runC07(c *Ctx) error {
 				nw.Put(lib.Entry{Path: names[j], Kind: "file", Data: datas[j]})
 			}
 		}
-		o := lib.OptParams{Partitions: cr.Range(0, 4), Concurrency: cr.Range(-1, 2), ForceMapAll: cr.Chance(1, 4), Comp: lib.Compressions[i%2]}
+		o := lib.OptParams{Partitions: cr.Range(0, 4), Comp: lib.Compressions[i%2]}
+		o.Concurrency = c07Concurrency(cr, o.Partitions)
+		o.ForceMapAll = cr.Chance(1, 4)
 		if err := c.c07Run(2000+i, "tie", old, nw, rel, o, lib.Compressions[0], c.c07DefaultApps(cr, i)); err != nil {
 			return err
 		}
@@ -728,8 +800,9 @@ func runC07(c *Ctx) error {
 		opts := lib.PairOpts{MaxFiles: 4, MaxSize: 3*lib.BS + 100, Links: i%5 == 0}
 		old, nw, rel := lib.GenPair(cr, opts)
 		rel = c07Enrich(cr, old, nw, rel)
-		o := lib.OptParams{Partitions: cr.Range(0, 16), Concurrency: cr.Range(-1, 4), ForceMapAll: cr.Chance(1, 3),
-			Comp: lib.Compressions[(i+int(c.Seed))%len(lib.Compressions)]}
+		o := lib.OptParams{Partitions: cr.Range(0, 16), Comp: lib.Compressions[(i+int(c.Seed))%len(lib.Compressions)]}
+		o.Concurrency = c07Concurrency(cr, o.Partitions)
+		o.ForceMapAll = cr.Chance(1, 3)
 		if cr.Chance(1, 4) { // a size limit that excludes some of the files
 			var sizes []int
 			for _, f := range append(old.Files(), nw.Files()...) {
@@ -754,7 +827,9 @@ func runC07(c *Ctx) error {
 	for i := 0; i < nm; i++ {
 		cr := r.Fork()
 		old, nw, rel := c07MultiPair(cr)
-		o := lib.OptParams{Partitions: cr.Range(0, 6), Concurrency: cr.Range(-1, 3), ForceMapAll: cr.Chance(1, 5), Comp: lib.Compressions[0]}
+		o := lib.OptParams{Partitions: cr.Range(0, 6), Comp: lib.Compressions[0]}
+		o.Concurrency = c07Concurrency(cr, o.Partitions)
+		o.ForceMapAll = cr.Chance(1, 5)
 		if i%2 == 1 { // checkpoints of a compressed patch exist at the codec's block boundaries only
 			o.Comp = lib.Compressions[(i/2+int(c.Seed))%len(lib.Compressions)]
 		}
@@ -785,7 +860,7 @@ func runC07(c *Ctx) error {
 	for i, bg := range bigs {
 		cr := r.Fork()
 		old, nw, rel := c07BigPair(cr, bg.extra, bg.moved)
-		o := lib.OptParams{Partitions: bg.partitions, Concurrency: cr.Range(-1, 3), Comp: lib.Compressions[0]}
+		o := lib.OptParams{Partitions: bg.partitions, Concurrency: c07Concurrency(cr, bg.partitions), Comp: lib.Compressions[0]}
 		ap := c07Apps{inplaceOpt: c.Thorough(), rng: cr.Fork(), deadline: 15 * time.Minute}
 		if c.Thorough() {
 			ap.interrupted = []c07Interrupt{{inplace: i%2 == 1, kind: 0}}
